@@ -6,7 +6,7 @@ import re
 
 from ..consteval import ConstEval, EnumMember
 from ..core import AnalysisError, ClassInfo, own_nodes, parent, short, unparse
-from ..rules import dsp, exa, fmt
+from ..rules import dsp, exa, fmt, match
 from . import c13, common
 
 EXPLANATION = (
@@ -226,10 +226,20 @@ def check_time_formats(ctx):
     ctx.check(got == want, "FMT-time", f"{f.qualname}|clock_time|{text}", ctx.where(f.module, f.node), f"`{text}` read back as {got}",
               f"the writer prints the clock time `{text}` but the reader's clock-time pattern recovers {got} instead of {want}")
   # frames: f"{n}f"
-  fr = [r for r in rets if isinstance(r.value, ast.JoinedStr) and unparse(r.value).rstrip("'\"").endswith("f") and "ceil" in unparse(r.value)]
+  # frames: one printed value (the rounded-up frame count) followed by literal text, however the string is put together
+  fr = []
+  for r in rets:
+    if r.value is None or "ceil" not in unparse(match.inline_locals_deep(f.node, r.value)):
+      continue
+    try:
+      parts = sk.of_expr(f, match.inline_locals_deep(f.node, r.value), {})
+    except AnalysisError:
+      continue
+    if parts and isinstance(parts[0], fmt.Field) and all(isinstance(p_, fmt.Lit) for p_ in parts[1:]):
+      fr.append(parts)
   ok = bool(fr)
   if ok:
-    lit = [v.value for v in fr[0].value.values if isinstance(v, ast.Constant)]
+    lit = [p_.s for p_ in fr[0][1:]]
     for n_ in (0, 7, 1234):
       text = f"{n_}" + "".join(lit)
       m = re.match(pats["_OFFSET_FRAME_RE"], text)
